@@ -63,7 +63,6 @@ def execute(case):
     from xknx.exceptions import CommunicationError
     from xknx.io.device_management_connection import UDPDeviceManagementConnection
     from xknx.io.tunnel import UDPTunnel
-    from xknx.knxip import DeviceConfigurationRequest, TunnellingRequest
 
     conn = case["conn"]
     gw = SimGateway()
@@ -318,7 +317,7 @@ def _enum_shard(ctx, length: int, first: str, prefix: int) -> None:
             n += 1
             if _nontrivial(facts):
                 nt += 1
-        if n % 600 < 3:
+        if first == "x" and len(ctx.samples) < 1:
             ctx.sample({"enum": word, "prefix": prefix})
     ctx.bulk(n, nt, f"enum-L{length}-from-{prefix}")
 
@@ -363,7 +362,7 @@ def _hyp_oracle(ctx, case) -> None:
         repr(sorted(case.items())),
         nontrivial=_nontrivial(facts),
         cls=cls,
-        sample={"conn": case["conn"], "prefix": case["prefix"], "ops": "".join(o[1] for o in case["ops"]), "delivered": {k: facts[k] for k in ("expected", "repeated", "out_of_order", "handshakes")}} if len(case["ops"]) > 6 else None,
+        sample={"conn": case["conn"], "prefix": case["prefix"], "ops": "".join(o[1] for o in case["ops"]), "delivered": {k: facts[k] for k in ("expected", "repeated", "out_of_order", "handshakes")}} if len(case["ops"]) > 6 and len(ctx.samples) < 2 else None,
     )
     for k in ("expected", "repeated", "out_of_order"):
         ctx.notes["delivered_" + k] = ctx.notes.get("delivered_" + k, 0) + facts[k]
@@ -385,7 +384,7 @@ def _wrap_shard(ctx, conn: str, ar: bool, variant: int) -> None:
     facts = check_case(ctx, case)
     if facts is not None and facts["expected"] < 600:
         raise HarnessError(f"wrap-around case delivered only {facts['expected']} expected frames: {facts}")
-    ctx.case(("wrap", conn, ar, variant), True, "wraparound-600+", sample={"wraparound": conn, "variant": variant, "delivered": facts})
+    ctx.case(("wrap", conn, ar, variant), True, "wraparound-600+", sample={"wraparound": conn, "variant": variant, "delivered": facts} if variant == 1 and ar else None)
 
 
 def selftest(ctx) -> None:
@@ -416,7 +415,7 @@ def run(ctx) -> None:
             jobs.append((length, first, 254))
     parallel(ctx, _enum_shard, jobs)
     parallel(ctx, _wrap_shard, [(c, ar, v) for c, ar in VARIANTS for v in range(4)])
-    parallel(ctx, _hyp_shard, [(ctx.n(100, 4000),)] * 16)
+    parallel(ctx, _hyp_shard, [(ctx.n(100, 2500),)] * 16)
     ctx.exhaustive = False
     ctx.notes["enumerated_symbol_sequences_up_to"] = {"from_expected_0": L0, "from_expected_254": L254}
 
